@@ -8,6 +8,11 @@ Streams
               table the writer looped over (x, y, labels from the wrapped _get_x_y, descriptors from the
               wrapped Data.get_axis_descriptions) is captured and sent to the model as exact doubles, so
               the comparison is on the emitted bytes
+  out.table.sub  the same on files with several initialisation times per day (date + hour columns: 00/06/12/18 UTC
+              runs; unixtime column: any second of the day): a deterministic grid over the time-like axes, then
+              random; the row label must be the slice's own init time / bucket and no two rows may share one
+  out.tlabel  the REAL Data.get_axis_descriptions on one axis value of a time-like axis (Time, Day, Month, Week,
+              Year) against Model/TimeLabel.lean, byte for byte; the oracle writes the label out by hand
   out.acc     Standard._get_x_y with -acc on a stub metric/data   (np.cumsum(np.nan_to_num(y), axis=0))
   out.tavg    Standard._get_x_y threshold averaging on a stub metric/data
 
@@ -35,13 +40,15 @@ import numpy as np
 from common import xr, xvec, from_xr, from_xvec, num_close
 
 ID = "C12"
-TARGETS = ["Proofs.C12", "Proofs.Lemmas.Decimal", "Proofs.Lemmas.Table"]
+TARGETS = ["Proofs.C12", "Proofs.C12Labels", "Proofs.Lemmas.Decimal", "Proofs.Lemmas.Table"]
 GEN_PREFIXES = []
 THEOREMS = {
     "Proofs.C12": ["VerifModel.C12." + t for t in [
         "C12_csv_shape", "C12_csv_lines", "C12_csv_cell", "C12_text_shape", "C12_text_lines",
         "C12_fmtG_sound", "C12_fmtG_special", "C12_fmtG_chars", "C12_descs", "C12_descs_other",
         "C12_acc", "C12_acc_full", "C12_threshold_avg", "C12_file_same"]],
+    "Proofs.C12Labels": ["VerifModel.C12." + t for t in [
+        "C12_time_label", "C12_time_label_inj", "C12_time_labels_nodup", "C12_bucket_label", "C12_bucket_label_iff"]],
     "Proofs.Lemmas.Decimal": ["VerifModel.Decimal." + t for t in [
         "ilog10_spec", "floorLog10_spec", "roundHalfEven_spec", "toDec_digits", "toDec_sound", "toDec_exp",
         "unsignedVal_fixed", "unsignedVal_sci", "fmtG_reads", "fmtG_sound"]],
@@ -54,8 +61,14 @@ TRUSTED_BASE = [
     "Model/OutputTable.lean: hand-written mirror of Output.csv / Output.text / the numeric tail of "
     "Standard._get_x_y, tied by streams out.writer (real writers, synthetic tables), out.table (real "
     "verif.driver.run, table captured by wrapping _get_x_y and Data.get_axis_descriptions), out.acc, out.tavg",
+    "Model/TimeLabel.lean: hand-written mirror of the time-like branch of Data.get_axis_descriptions (UTC "
+    "broken-down time of the axis value written with the axis format; %Y for years 1000-9999, %U = (yday + 7 - "
+    "wday) / 7), tied by stream out.tlabel (real method, 31 days x 12 seconds of the day x 5 axes on every run); "
+    "its calendar arithmetic is Base/Calendar.lean, proved equal to the textbook calendar for 1900-2100 in "
+    "Proofs/C11Calendar.lean (one kernel evaluation over the 73 414 days)",
     "not modelled: Python's str() of a NumPy scalar (csv descriptor fields; compared by parsed value), "
-    "strftime (time descriptors; compared with datetime in the oracle), IEEE rounding of np.cumsum and of the "
+    "the round trip of an instant through matplotlib's date numbers (exact for whole seconds; out.tlabel), "
+    "fractional seconds, IEEE rounding of np.cumsum and of the "
     "threshold mean (rtol 1e-9), negative zero (\"-0\" is normalised to \"0\" in the comparison)",
     "the oracle's independent recomputation uses verif.data.Data and verif.metric.<M>.compute on a fresh "
     "dataset (C01-C11 are responsible for those); for mae/bias it additionally recomputes every slice in plain "
@@ -69,8 +82,11 @@ ASSUMPTIONS = [
     "score per legend entry.  Outside that domain (e.g. -leg 'c|d') only correspondence and oracle speak",
     "-acc: running sums in exact arithmetic with IEEE special values (NaN counts as 0, an infinite score makes the "
     "sum infinite, +inf and -inf together NaN) for every input (C12_acc_full); rounding of the float sums is not modelled",
-    "generated datasets: whole-day init times, obs identical across files for the same case, values exactly "
-    "representable in float32",
+    "generated datasets: init times at whole seconds (midnight in out.table; 00/03/06/12/18/21/23 UTC or odd seconds "
+    "of the day in out.table.sub), obs identical across files for the same case, values exactly representable in "
+    "float32",
+    "time-axis label theorems: every whole second from 1900-01-01T00:00:00Z to 2100-12-31T23:59:59Z (the range of "
+    "the C11 calendar facts); no theorem for the week label (%Y/%U), which is tied by out.tlabel only",
 ]
 RULE = ("out.table (first, so that a failing input is a command line): 1-3 generated input files (1-4 dates x 1-4 lead "
         "times x 1-4 stations, rows shuffled, rows dropped, NaN / -999, extra dates / lead times / stations in some "
@@ -81,7 +97,13 @@ RULE = ("out.table (first, so that a failing input is a command line): 1-3 gener
         "columns of strings/numbers/None, 1-4 score columns from a pool of special doubles, ASCII/Unicode/blank-"
         "containing labels, 12% with separators / newlines / edge blanks inside labels), with and without a file name; "
         "out.acc / out.tavg: Standard._get_x_y on a stub metric with random matrices (NaN, +-inf); "
-        "out.seldesc: 2 writers x 4 axis kinds.  Non-trivial = the emitted table (resp. value) contains a non-zero "
+        "out.seldesc: 2 writers x 4 axis kinds; out.table.sub: files with several init times per day (hour column "
+        "with 00/06/12/18/03/21/23 UTC, or a unixtime column with seconds 0, 1, 3600, ..., 45296, 86399 of the day) — "
+        "deterministic grid {hour, unixtime} x {1, 2 files} x {csv, text} x {time, timeofday, day, week, month, year, "
+        "dayofmonth, dayofyear, monthofyear, default} (+ bias, -acc, -leg, ets on -x time), -f alternating, then "
+        "300 (quick) / 2500 random ones with the option mix of out.table; out.tlabel: Data.get_axis_descriptions on "
+        "5 time-like axes x 31 days (leap days, year / week boundaries, 1900, 1969/1970, 2038, 2100) x 12 seconds of "
+        "the day, thorough + 4000 random instants of 1900-2100.  Non-trivial = the emitted table (resp. value) contains a non-zero "
         "digit after the header, i.e. at least one finite non-zero score; distinct = distinct op lines")
 EXHAUSTIVE = {"quick": False, "thorough": False}
 EXHAUSTIVE_NOTE = "seeded random; the metric x axis x type grid is covered round-robin, not exhaustively"
@@ -92,7 +114,11 @@ LEVEL_TEXT = ("Lean theorems over the model of the writers: parse(print(table)) 
               "+-m*10^(X-P+1) with exactly P significant digits, within half a unit of the P-th digit of the exact "
               "value, scientific notation exactly when X < -4 or X >= P (both notations, string level); nan/inf/0 "
               "exact; -acc entry (i,j) is the sum over k<=i of the scores with NaN as 0 (infinite scores included); threshold "
-              "averaging is the mean over intervals; the -f content is the printed content.  The model is tied to "
+              "averaging is the mean over intervals; the -f content is the printed content; the -x time row label of an "
+              "initialisation time is YYYY-MM-DD HH:MM:SS of its textbook civil date and second of the day, two init "
+              "times with the same label are the same instant (so the rows of a table carry pairwise distinct labels), "
+              "and day / month / year labels are equal exactly for instants of the same bucket (every whole second "
+              "1900-2100).  The model is tied to "
               "/repo on every run by byte-exact correspondence with the real verif.driver.run output on generated "
               "datasets (table captured from the running code as exact doubles) and with the real writers on "
               "synthetic tables.")
@@ -231,12 +257,17 @@ def _strip_warnings(text):
     return "\n".join(keep)
 
 
+TIMECOLS = {None: "date", "h": "date hour", "u": "unixtime"}
+
+
 def _write_files(scen, d):
+    """scen["t"]: absent = a date column (init times at midnight); "h" = date and hour columns; "u" = a unixtime
+    column (any second of the day)"""
     paths = []
     for fl in scen["files"]:
         p = os.path.join(d, fl["n"])
         with open(p, "w") as f:
-            f.write("date leadtime location lat lon altitude obs fcst\n")
+            f.write(TIMECOLS[scen.get("t")] + " leadtime location lat lon altitude obs fcst\n")
             for r in fl["r"]:
                 f.write(r.replace("~", " ") + "\n")
         paths.append(p)
@@ -375,6 +406,48 @@ def _std_xy(cols_of, F, n, thresholds, acc):
         return pl._get_x_y(_StubData(F, n), verif.axis.Leadtime())[1]
 
 
+# ------------------------------------------------------------------ plain-Python calendar (oracle side)
+def _ut(date):
+    """seconds since 1970-01-01T00:00Z of midnight of YYYYMMDD (proleptic Gregorian ordinal arithmetic only)"""
+    return (datetime.date(date // 10000, date // 100 % 100, date % 100).toordinal() - 719163) * 86400
+
+
+def _civil(ut):
+    """unix time (whole seconds) -> (date object, hour, minute, second) in UTC"""
+    d = datetime.date.fromordinal(719163 + ut // 86400)
+    s = ut % 86400
+    return d, s // 3600, s // 60 % 60, s % 60
+
+
+def _time_label(axis, ut):
+    """the documented label of the instant ut on a time-like axis, written out by hand (no strftime):
+    time %Y-%m-%d %H:%M:%S, day %Y/%m/%d, month %Y/%m, year %Y, week %Y/%U (week of the year, weeks start on
+    Sunday, days before the first Sunday are week 00)"""
+    d, H, M, S = _civil(ut)
+    if axis == "time":
+        return "%04d-%02d-%02d %02d:%02d:%02d" % (d.year, d.month, d.day, H, M, S)
+    if axis == "day":
+        return "%04d/%02d/%02d" % (d.year, d.month, d.day)
+    if axis == "month":
+        return "%04d/%02d" % (d.year, d.month)
+    if axis == "year":
+        return "%04d" % d.year
+    if axis == "week":
+        yday = d.toordinal() - datetime.date(d.year, 1, 1).toordinal()
+        wsun = (d.weekday() + 1) % 7
+        return "%04d/%02d" % (d.year, (yday + 7 - wsun) // 7)
+    raise ValueError(axis)
+
+
+TL_AXES = ["time", "day", "month", "week", "year"]
+TL_DAYS = [19000101, 19000228, 19000301, 19691231, 19700101, 19991231, 20000101, 20000229, 20000301, 20111231,
+           20120101, 20120102, 20120107, 20120108, 20120229, 20121230, 20121231, 20130101, 20130106, 20170101,
+           20180101, 20181231, 20231231, 20240101, 20240229, 20380119, 20380120, 20991231, 21000228, 21000301,
+           21001231]
+TL_SECS = [0, 1, 59, 60, 3599, 3600, 35999, 43199, 43200, 45296, 64800, 86399]
+T_LO, T_END = -2208988800, 4133980800          # 1900-01-01T00:00:00Z ... 2101-01-01T00:00:00Z (range of the theorems)
+
+
 # ------------------------------------------------------------------ generators
 def _doubles(rng, n):
     out = [0.5, 2.5e-5, 999999.5, 1e-5, 123456.5, 0.0001, 0.00001, 9.9999949e-5, 9.9999951e-5, 9.999995e-5,
@@ -475,6 +548,10 @@ def _gen_scenario(rng, k):
                                                       obs[(d, l, s[0])], fc))
         rng.shuffle(rows)
         files.append({"n": names[f], "r": rows})
+    return {"files": files, "args": _gen_args(rng, k, nf, AXES)}
+
+
+def _gen_args(rng, k, nf, axes):
     kind = ["csv", "text"][k % 2]
     r = rng.random()
     if r < 0.55:
@@ -484,7 +561,7 @@ def _gen_scenario(rng, k):
     else:
         metric = "obsfcst"
     args = ["-m", metric, "-type", kind]
-    axis = AXES[(k // 3) % len(AXES)] if rng.random() < 0.9 else None
+    axis = axes[(k // 3) % len(axes)] if rng.random() < 0.9 else None
     thr = None
     if metric in CONT:
         if rng.random() < 0.35:
@@ -514,10 +591,101 @@ def _gen_scenario(rng, k):
         args += ["-leg", ",".join(rng.choice(pool) for _ in range(nf))]
     if rng.random() < 0.25:
         args += ["-acc"]
-    return {"files": files, "args": args}
+    return args
 
 
-def _scen_ops(scen, with_f):
+# ---- initialisation times that are not at midnight (hour column / unixtime column)
+HOURS = [0, 6, 12, 18, 3, 21, 23]
+SECS = [0, 1, 3600, 21600, 43200, 45296, 64800, 86399]
+SUBAXES = ["time", "timeofday", "day", "time", "week", "month", "year", "time", "dayofyear", "dayofmonth",
+           "monthofyear", "leadtime", "location", "no"]
+
+
+def _num_tok(v):
+    return repr(v) if v != int(v) else "%d" % int(v)
+
+
+def _sub_row(t, date, sec, lead, loc, obs, fc):
+    """one data row; t = "h": date and hour columns, "u": one unixtime column"""
+    tcols = "%d~%d" % (date, sec // 3600) if t == "h" else "%d" % (_ut(date) + sec)
+    return "%s~%d~%d~%s~%s~%s~%s~%s" % (tcols, lead, loc[0], _num_tok(loc[1]), _num_tok(loc[2]), _num_tok(loc[3]),
+                                      obs, fc)
+
+
+def _gen_subdaily(rng, k):
+    """like _gen_scenario, but the files carry several initialisation times per day (00/06/12/18 UTC through an
+    hour column, or any second of the day through a unixtime column); -x round-robin over SUBAXES"""
+    t = "u" if k % 3 == 2 else "h"
+    nf = rng.choice([1, 2, 2, 3])
+    days = sorted(rng.sample(DATES, rng.randint(1, 3)))
+    pool = [h * 3600 for h in HOURS] if t == "h" else SECS
+    inits = set()
+    for d in days:
+        for sec in rng.sample(pool, rng.randint(1, 3)):
+            inits.add((d, sec))
+    if all(sec == 0 for _, sec in inits):
+        inits.add((days[0], 43200))
+    inits = sorted(inits)
+    leads = sorted(rng.sample(LEADS, rng.randint(1, 3)))
+    locs = sorted(rng.sample(LOCS, rng.randint(1, 3)))
+    extra_init = (20140101, 43200)
+    obs = {}
+    for key in itertools.product(inits + [extra_init], leads + [96], [l[0] for l in LOCS]):
+        obs[key] = _fmtval(rng) if rng.random() > 0.06 else rng.choice(["nan", "-999"])
+    names = rng.sample(["a.txt", "b.txt", "raw.txt", "kf.txt", "m1", "x.y.txt", "Zed.txt"], nf)
+    files = []
+    for f in range(nf):
+        i2, l2 = list(inits), list(leads)
+        if rng.random() < 0.25:
+            i2.append(extra_init)
+        if rng.random() < 0.2:
+            l2.append(96)
+        rows = []
+        for ((d, sec), l, s) in itertools.product(i2, l2, locs):
+            if rng.random() < 0.04 and len(rows) > 0:
+                continue
+            fc = _fmtval(rng) if rng.random() > 0.05 else "nan"
+            rows.append(_sub_row(t, d, sec, l, s, obs[((d, sec), l, s[0])], fc))
+        rng.shuffle(rows)
+        files.append({"n": names[f], "r": rows})
+    return {"files": files, "args": _gen_args(rng, k, nf, SUBAXES), "t": t}
+
+
+def _det_subdaily():
+    """deterministic grid on two small datasets with 00 and 12 UTC runs (hour column) resp. odd seconds of the day
+    (unixtime column): every time-like axis x csv/text x 1-2 files, with -f alternating"""
+    sets = {"h": [(20111231, 43200), (20120101, 0), (20120101, 43200), (20120108, 0), (20120108, 64800)],
+            "u": [(20120229, 0), (20120229, 45296), (20120301, 1), (20120301, 86399)]}
+    out = []
+    n = 0
+    for t in ("h", "u"):
+        inits = sets[t]
+        for nf in (1, 2):
+            files = []
+            for f in range(nf):
+                rows = []
+                for i, (d, sec) in enumerate(inits):
+                    for j, l in enumerate((0, 6)):
+                        for q, s in enumerate(LOCS[:2]):
+                            ob = ((i * 7 + j * 3 + q * 5) % 11) / 2.0
+                            fc = ((i * 5 + j * 2 + q * 3 + f * 4) % 13) / 4.0
+                            rows.append(_sub_row(t, d, sec, l, s, _num_tok(ob), _num_tok(fc)))
+                files.append({"n": ["a.txt", "b.txt"][f], "r": rows})
+            for kind in ("csv", "text"):
+                for axis in ("time", "timeofday", "day", "week", "month", "year", "dayofmonth", "dayofyear",
+                             "monthofyear", None):
+                    variants = [["-m", "mae"]]
+                    if axis == "time":
+                        variants += [["-m", "bias"], ["-m", "mae", "-acc"], ["-m", "rmse", "-leg", ",".join("AB"[:nf])],
+                                     ["-m", "ets", "-r", "1,3"]]
+                    for v in variants:
+                        args = v[:2] + ["-type", kind] + (["-x", axis] if axis else []) + v[2:]
+                        n += 1
+                        out.append(({"files": files, "args": args, "t": t}, n % 2))
+    return out
+
+
+def _scen_ops(scen, with_f, stream="out.table"):
     """run the real code once (no -f) to capture the table; -> list of (stream, op)"""
     kind = _arg(scen["args"], "-type")
     res = _run(scen, False, capture=True)
@@ -525,9 +693,9 @@ def _scen_ops(scen, with_f):
     assert " " not in tok
     tbl = _table_from_capture(kind, res.get("cap", {})) if res["status"] == "ok" else None
     if tbl is None:
-        return [("out.table", "%s %d ? ? ? %s" % (kind, with_f, tok))]
+        return [(stream, "%s %d ? ? ? %s" % (kind, with_f, tok))]
     names, legend, rows = tbl
-    return [("out.table", "%s %d %s %s %s %s" % (kind, with_f, enc_list(names), enc_list(legend), rows, tok))]
+    return [(stream, "%s %d %s %s %s %s" % (kind, with_f, enc_list(names), enc_list(legend), rows, tok))]
 
 
 def _gen_matrix(rng, allow_inf=False):
@@ -549,6 +717,23 @@ def gen_ops(tier, rng):
         scen = _gen_scenario(rng, k)
         for so in _scen_ops(scen, 1 if rng.random() < 0.3 else 0):
             yield so
+    # ---- the same with several initialisation times per day: deterministic grid, then random
+    for scen, with_f in _det_subdaily():
+        for so in _scen_ops(scen, with_f, "out.table.sub"):
+            yield so
+    for k in range(300 if quick else 2500):
+        scen = _gen_subdaily(rng, k)
+        for so in _scen_ops(scen, 1 if rng.random() < 0.3 else 0, "out.table.sub"):
+            yield so
+    # ---- labels of the time-like axes (Data.get_axis_descriptions on one axis value)
+    for ax in TL_AXES:
+        for d in TL_DAYS:
+            for sec in TL_SECS:
+                yield "out.tlabel", "tlabel %s %d" % (ax, _ut(d) + sec)
+    for _ in range(0 if quick else 4000):
+        t = rng.randrange(T_LO, T_END)
+        for ax in TL_AXES:
+            yield "out.tlabel", "tlabel %s %d" % (ax, t)
     # ---- %g
     vals = _doubles(rng, 3000 if quick else 50000)
     for v in vals:
@@ -577,6 +762,13 @@ def search_ops(rng):
         scen = _gen_scenario(rng, k)
         for so in _scen_ops(scen, 1 if rng.random() < 0.3 else 0):
             yield so
+    for k in range(600):
+        scen = _gen_subdaily(rng, k)
+        for so in _scen_ops(scen, 1 if rng.random() < 0.3 else 0, "out.table.sub"):
+            yield so
+    for _ in range(1500):
+        t = rng.randrange(T_LO, T_END)
+        yield "out.tlabel", "tlabel %s %d" % (rng.choice(TL_AXES), t)
     for _ in range(2000):
         yield "out.writer", _gen_writer(rng)
     for i in range(500):
@@ -647,6 +839,17 @@ def impl(op):
             (pl.csv if a[1] == "csv" else pl.text)(D())
         tab = _parse_emitted(a[1], buf.getvalue())
         return "%s:%s" % (tab[0][0], {7.0: "T", 9.0: "A"}.get(float(tab[1][0]), "?"))
+    if a[0] == "tlabel":
+        import verif.axis
+        import verif.data
+        t = int(a[2])
+
+        class D(object):
+            def get_axis_values(self, axis):
+                return np.array([t], float)
+        with np.errstate(all="ignore"):
+            descs = verif.data.Data.get_axis_descriptions(D(), verif.axis.get(a[1]))
+        return ";".join("%s:%s" % (k, ",".join(str(x).replace(" ", "_") for x in v)) for k, v in descs.items())
     if a[0] == "acc":
         m = np.array(parse_matrix(a[1]), float)
         n, F = m.shape
@@ -744,63 +947,74 @@ def _parse_emitted(kind, text):
 
 
 def _expected_from_files(scen):
-    """pure-Python reading of the generated rows: common dimensions, per-file (obs, fcst) tables"""
+    """pure-Python reading of the generated rows: common dimensions, per-file (obs, fcst) tables; the time key is
+    the initialisation time in seconds since 1970 (date [+ hour] columns or the unixtime column)"""
     tabs, dsets, lsets, ssets, meta = [], [], [], [], {}
+    t = scen.get("t")
     for fl in scen["files"]:
-        t = {}
+        tab = {}
         for r in fl["r"]:
             c = r.split("~")
-            key = (int(c[0]), float(c[1]), int(c[2]))
+            if t == "h":
+                ut, c = _ut(int(c[0])) + 3600 * int(c[1]), c[2:]
+            elif t == "u":
+                ut, c = int(c[0]), c[1:]
+            else:
+                ut, c = _ut(int(c[0])), c[1:]
+            key = (ut, float(c[0]), int(c[1]))
             if fl is scen["files"][0]:
-                meta.setdefault(int(c[2]), (float(c[3]), float(c[4]), float(c[5])))
+                meta.setdefault(int(c[1]), (float(c[2]), float(c[3]), float(c[4])))
 
             def val(s):
                 v = float(s)
                 return float("nan") if v == -999 else float(np.float32(v))
-            t.setdefault(key, (val(c[6]), val(c[7])))
-        tabs.append(t)
-        dsets.append({k[0] for k in t})
-        lsets.append({k[1] for k in t})
-        ssets.append({k[2] for k in t})
-    dates = sorted(set.intersection(*dsets))
+            tab.setdefault(key, (val(c[5]), val(c[6])))
+        tabs.append(tab)
+        dsets.append({k[0] for k in tab})
+        lsets.append({k[1] for k in tab})
+        ssets.append({k[2] for k in tab})
+    times = sorted(set.intersection(*dsets))
     leads = sorted(set.intersection(*lsets))
     locs = sorted(set.intersection(*ssets))
-    return tabs, dates, leads, locs, meta
+    return tabs, times, leads, locs, meta
 
 
-def _date(d):
-    return datetime.datetime(d // 10000, d // 100 % 100, d % 100)
+def _subdaily(scen):
+    """does any row of the scenario have an initialisation time that is not at midnight?"""
+    if scen.get("t") is None:
+        return False
+    tabs = _expected_from_files(scen)[0]
+    return any(k[0] % 86400 != 0 for tab in tabs for k in tab)
 
 
 def _pure(scen, metric, axis):
     """slices (descriptor expectation, per-file score) for mae / bias on the basic axes; None if not covered"""
     if metric not in ("mae", "bias") or axis not in ("leadtime", "location", "lat", "lon", "elev", "time", "day",
-                                                      "month", "year", "no"):
+                                                      "month", "year", "timeofday", "no"):
         return None
-    tabs, dates, leads, locs, meta = _expected_from_files(scen)
+    tabs, times, leads, locs, meta = _expected_from_files(scen)
 
-    def keyof(d, l, s):
-        return {"leadtime": l, "time": d, "day": d, "month": d // 100, "year": d // 10000, "no": 0}.get(axis, s)
-    groups = {}
-    for d, l, s in itertools.product(dates, leads, locs):
-        groups.setdefault(keyof(d, l, s), [])
-        vals = [t.get((d, l, s), (float("nan"), float("nan"))) for t in tabs]
+    def keyof(ut, l, s):
+        d = _civil(ut)[0]
+        return {"leadtime": l, "time": ut, "day": ut // 86400, "month": (d.year, d.month), "year": d.year,
+                "timeofday": Fraction(ut % 86400, 3600), "no": 0}.get(axis, s)
+    groups, first = {}, {}
+    for ut, l, s in itertools.product(times, leads, locs):
+        groups.setdefault(keyof(ut, l, s), [])
+        first.setdefault(keyof(ut, l, s), ut)
+        vals = [t.get((ut, l, s), (float("nan"), float("nan"))) for t in tabs]
         if all(not math.isnan(o) and not math.isnan(f) for o, f in vals):
-            groups[keyof(d, l, s)].append(vals)
+            groups[keyof(ut, l, s)].append(vals)
     out = []
     for k in sorted(groups):
         if axis == "leadtime":
             desc = [k]
         elif axis in ("location", "lat", "lon", "elev"):
             desc = [float(k)] + list(meta[k])
-        elif axis == "time":
-            desc = [_date(k).strftime("%Y-%m-%d %H:%M:%S")]
-        elif axis == "day":
-            desc = [_date(k).strftime("%Y/%m/%d")]
-        elif axis == "month":
-            desc = ["%04d/%02d" % (k // 100, k % 100)]
-        elif axis == "year":
-            desc = ["%04d" % k]
+        elif axis in ("time", "day", "month", "year"):
+            desc = [_time_label(axis, first[k])]       # the slice's own init time / day / month / year
+        elif axis == "timeofday":
+            desc = [float(k)]
         else:
             desc = None
         sc = []
@@ -916,11 +1130,13 @@ def _recompute(scen):
         shutil.rmtree(d, True)
 
 
-def _desc_matches(field, want):
+def _desc_matches(field, want, kind="csv"):
+    """csv prints str(value) (reads back exactly); text prints a numeric descriptor with %g, so a value with more
+    than six significant digits (a time of day of 12:34:56 = 12.58222... h) reads back as its %g rounding"""
     if isinstance(want, str):
         return field == want
     try:
-        return float(field) == float(want)
+        return float(field) == float(want) or (kind == "text" and field == "%g" % want)
     except ValueError:
         return False
 
@@ -932,6 +1148,7 @@ def _judge_table(a, impl_out):
     args = scen["args"]
     axis_arg = _arg(args, "-x", "default")
     sig = {"type": kind, "axis": axis_arg, "metric": _arg(args, "-m"), "acc": "-acc" in args, "f": with_f,
+           "subdaily": _subdaily(scen),
            "xgroup": "field" if axis_arg in ("obs", "fcst") else ("threshold" if axis_arg == "threshold" else "dim")}
     cl = cmdline(scen, with_f)
     if impl_out.startswith("RUN:") or impl_out.startswith("EXC:") or impl_out.startswith("EXIT:"):
@@ -977,7 +1194,7 @@ def _judge_table(a, impl_out):
         for j, dv in enumerate(dvals[i]):
             if aname == "no":
                 continue
-            if not _desc_matches(line[j], dv):
+            if not _desc_matches(line[j], dv, kind):
                 return (dict(sig, kind="descriptor"), "%s: row %d descriptor %r does not identify the slice (expected %r)"
                         % (cl, i, line[j], dv))
         for f, v in enumerate(want):
@@ -990,6 +1207,15 @@ def _judge_table(a, impl_out):
             if not _sig_digits_ok(line[nd + f], v, p):
                 return (dict(sig, kind="rounding"), "%s: %r is not %r rounded to %d significant digits"
                         % (cl, line[nd + f], v, p))
+    # the leading fields identify the slice: no two rows may carry the same ones
+    if aname != "no":
+        seen = {}
+        for i, line in enumerate(body):
+            lead = tuple(line[:nd])
+            if lead in seen:
+                return (dict(sig, kind="descriptor"), "%s: rows %d and %d carry the same leading field(s) %r although "
+                        "they are different slices" % (cl, seen[lead], i, list(lead)))
+            seen[lead] = i
     # second, library-free path for mae / bias
     pure = _pure(scen, _arg(args, "-m"), aname) if "-x" in args or True else None
     if pure is not None:
@@ -999,7 +1225,7 @@ def _judge_table(a, impl_out):
         for i, (line, (desc, sc)) in enumerate(zip(body, pure)):
             if desc is not None:
                 for j, dv in enumerate(desc):
-                    if not _desc_matches(line[j], dv):
+                    if not _desc_matches(line[j], dv, kind):
                         return (dict(sig, kind="descriptor"), "%s: row %d descriptor %r, the files say %r"
                                 % (cl, i, line[j], dv))
             if "-acc" in args:
@@ -1079,6 +1305,14 @@ def judge(op, impl_out, spec_out):
                     "column %s: the leading field must be the %s" % (a[1], a[2], impl_out,
                     "threshold" if want == "T" else "axis value"))
         return None
+    if a[0] == "tlabel":
+        t = int(a[2])
+        want = "%s:%s" % (a[1].capitalize(), _time_label(a[1], t).replace(" ", "_"))
+        if impl_out != want:
+            return ({"kind": "descriptor", "stream": "tlabel", "axis": a[1], "xgroup": "dim", "subdaily": t % 86400 != 0},
+                    "Data.get_axis_descriptions(%s) labels the axis value %d (%s UTC) %r, the documented label is %r"
+                    % (a[1], t, _time_label("time", t), impl_out, want))
+        return None
     if a[0] == "acc":
         if impl_out.startswith("E"):
             return ({"kind": "crash", "stream": "acc"}, "-acc ended in %s" % impl_out)
@@ -1139,9 +1373,9 @@ def nontrivial(op, out):
 
 def extra_evidence(rows):
     axes, metrics, kinds, opts = {}, {}, {}, {"-f": 0, "-leg": 0, "-acc": 0, "-r": 0, "-b": 0}
-    crashed = 0
+    crashed = sub = 0
     for r in rows:
-        if r["stream"] != "out.table":
+        if not r["stream"].startswith("out.table"):
             continue
         a = r["op"].split(" ")
         scen = json.loads(a[5])
@@ -1153,5 +1387,6 @@ def extra_evidence(rows):
             opts[o] += 1 if o in args else 0
         opts["-f"] += 1 if a[1] == "1" else 0
         crashed += 1 if a[2] == "?" else 0
-    return {"table_axes": axes, "table_metrics": metrics, "table_types": kinds, "table_options": opts,
+        sub += 1 if scen.get("t") else 0
+    return {"table_subdaily": sub, "table_axes": axes, "table_metrics": metrics, "table_types": kinds, "table_options": opts,
             "table_runs_without_table": crashed}
